@@ -539,6 +539,49 @@ impl Hist {
             let _ = self.tip(t);
             self.call(mons, r);
         }
+        // Targeted shape for a late-starting pool: scan everything in order, rewind to just below
+        // the pool's first-ever commitment (its tree is EMPTY at that checkpoint), continue with a
+        // different chain and scan it.
+        if let Some((lp, _)) = self.cfg.late_pool {
+            let first = self.sim.blocks.values().find(|b| !b.leaves[lp.idx()].is_empty()).map(|b| b.height);
+            let tip = self.sim.tip_height();
+            if let Some(f) = first {
+                if f > self.sim.base_height() + 2 && tip > f && tip - f < 90 && self.rng.gen_bool(0.75) {
+                    let mut from = self.sim.base_height() + 1;
+                    let mut ok = true;
+                    while from <= tip && ok {
+                        let l = self.rng.gen_range(1..=self.cfg.max_batch.min(40)).min(tip + 1 - from);
+                        ok = self.scan(from, l);
+                        if ok {
+                            self.call(mons, r);
+                        } else {
+                            self.classify_scan_failure();
+                        }
+                        from += l;
+                    }
+                    if ok {
+                        let to = f - 1 - self.rng.gen_range(0..2).min(f - self.sim.base_height() - 2);
+                        if self.rewind(to) {
+                            self.call(mons, r);
+                            let cont = (f - to) + self.rng.gen_range(3..15);
+                            self.mine(cont);
+                            let t = self.sim.tip_height();
+                            let _ = self.tip(t);
+                            let mut from = to + 1;
+                            while from <= t {
+                                let l = self.rng.gen_range(1..=6).min(t + 1 - from);
+                                if !self.scan(from, l) {
+                                    self.classify_scan_failure();
+                                    break;
+                                }
+                                self.call(mons, r);
+                                from += l;
+                            }
+                        }
+                    }
+                }
+            }
+        }
         // Targeted shapes around the nullifier-tracking floor (batches longer than the 100-block
         // retention window): (a) such a batch scanned OUT OF ORDER, above unscanned history whose
         // notes it spends; (b) such a batch extending the fully-scanned frontier.
